@@ -203,28 +203,39 @@ variable {σ : Type}
 
 /-! ### set_tls_decryptors / set_initial_decryptor -/
 
+/-- the part of `set_tls_decryptors` after `dev_quic_keys` returned: `self.keys.update(keys)` and the three try/excepts -/
+def installGroups (s : St σ) (sel : SuiteSel) (kg : KeyGroups) : St σ :=
+  match kg.hs with
+  | none =>
+    { s with keysHs := s.keysHs || kg.hs.isSome, keysApp := s.keysApp || kg.app.isSome,
+             keysEarly := s.keysEarly || kg.early.isSome, canDecrypt := false }
+  | some (hsS, hsC) =>
+    match kg.app with
+    | none =>
+      { s with keysHs := s.keysHs || kg.hs.isSome, keysApp := s.keysApp || kg.app.isSome,
+               keysEarly := s.keysEarly || kg.early.isSome,
+               decHandshake := some { alg := sel.alg, server := some hsS, client := hsC }, canDecrypt := false }
+    | some ak =>
+      match kg.early with
+      | none =>
+        { s with keysHs := s.keysHs || kg.hs.isSome, keysApp := s.keysApp || kg.app.isSome,
+                 keysEarly := s.keysEarly || kg.early.isSome,
+                 decHandshake := some { alg := sel.alg, server := some hsS, client := hsC },
+                 decApp := some [ak.toDec sel.alg] }
+      | some ek =>
+        { s with keysHs := s.keysHs || kg.hs.isSome, keysApp := s.keysApp || kg.app.isSome,
+                 keysEarly := s.keysEarly || kg.early.isSome,
+                 decHandshake := some { alg := sel.alg, server := some hsS, client := hsC },
+                 decApp := some [ak.toDec sel.alg],
+                 decEarly := some { alg := sel.alg, server := none, client := ek }, earlyTrafficKeys := true }
+
 def setTlsDecryptors (P : Params σ) (s : St σ) (clientRandom cs : Bytes) : St σ × Option PyErr :=
   match selectSuite cs with
   | none => ({ s with canDecrypt := false }, none)
   | some sel =>
-    let s := { s with suite := some sel }
     match P.devQuicKeys sel s.version clientRandom with
-    | .error e => (s, some e)                       -- not inside any of the try/excepts
-    | .ok kg =>
-      let s := { s with keysHs := s.keysHs || kg.hs.isSome, keysApp := s.keysApp || kg.app.isSome,
-                        keysEarly := s.keysEarly || kg.early.isSome }
-      match kg.hs with
-      | none => ({ s with canDecrypt := false }, none)
-      | some (hsS, hsC) =>
-        let s := { s with decHandshake := some { alg := sel.alg, server := some hsS, client := hsC } }
-        match kg.app with
-        | none => ({ s with canDecrypt := false }, none)
-        | some ak =>
-          let s := { s with decApp := some [ak.toDec sel.alg] }
-          match kg.early with
-          | none => (s, none)
-          | some ek =>
-            ({ s with decEarly := some { alg := sel.alg, server := none, client := ek }, earlyTrafficKeys := true }, none)
+    | .error e => ({ s with suite := some sel }, some e)       -- not inside any of the try/excepts
+    | .ok kg => (installGroups { s with suite := some sel } sel kg, none)
 
 def setInitialDecryptor (P : Params σ) (s : St σ) (dcid : Bytes) : St σ :=
   match P.devInitialKeys s.version dcid with
@@ -234,13 +245,15 @@ def setInitialDecryptor (P : Params σ) (s : St σ) (dcid : Bytes) : St σ :=
 
 /-! ### decrypt_packet -/
 
-/-- `check_key_epoch(key_phase_bit, isserver)` -/
-def checkKeyEpoch (P : Params σ) (s : St σ) (phase : Option Nat) (srv : Bool) : St σ × Option PyErr :=
-  let s :=
-    if srv then
-      if s.lastPhaseServer ≠ phase then { s with epochServer := s.epochServer + 1, lastPhaseServer := phase } else s
-    else
-      if s.lastPhaseClient ≠ phase then { s with epochClient := s.epochClient + 1, lastPhaseClient := phase } else s
+/-- first half of `check_key_epoch`: a key-phase value different from the last one of that direction advances the epoch -/
+def flipEpoch (s : St σ) (phase : Option Nat) (srv : Bool) : St σ :=
+  if srv then
+    if s.lastPhaseServer ≠ phase then { s with epochServer := s.epochServer + 1, lastPhaseServer := phase } else s
+  else
+    if s.lastPhaseClient ≠ phase then { s with epochClient := s.epochClient + 1, lastPhaseClient := phase } else s
+
+/-- second half: `if self.epoch_client == len(self.decryptors["Application"]) or …: append(key_update(…[-1], …))` -/
+def extendGens (P : Params σ) (s : St σ) : St σ × Option PyErr :=
   match s.decApp with
   | none => (s, some .key)
   | some gens =>
@@ -254,26 +267,36 @@ def checkKeyEpoch (P : Params σ) (s : St σ) (phase : Option Nat) (srv : Bool) 
           ({ s with decApp := some (gens ++ [(P.keyUpdate sel s.version d.serverSec d.clientSec).toDec sel.alg]) }, none)
     else (s, none)
 
-/-- first part of the `try:` — `none` in the result = the name `decryptor` stays unbound -/
+/-- `check_key_epoch(key_phase_bit, isserver)` -/
+def checkKeyEpoch (P : Params σ) (s : St σ) (phase : Option Nat) (srv : Bool) : St σ × Option PyErr :=
+  extendGens P (flipEpoch s phase srv)
+
+/-- `self.decryptors["Application"][self.epoch_server | self.epoch_client]` -/
+def appDecryptor (s : St σ) (srv : Bool) : Except PyErr (Option Dec) :=
+  match s.decApp with
+  | none => .error .key
+  | some gens =>
+    match gens[if srv then s.epochServer else s.epochClient]? with
+    | none => .error .index
+    | some d => .ok (some d)
+
+/-- the `match quic_packet.packet_type:` for long headers; `.ok none` = no case: `decryptor` stays unbound -/
+def longDecryptor (s : St σ) : PType → Except PyErr (Option Dec)
+  | .initial => match s.decInitial with | none => .error .key | some d => .ok (some d)
+  | .handshake => match s.decHandshake with | none => .error .key | some d => .ok (some d)
+  | .rtt0 => match s.decEarly with | none => .error .key | some d => .ok (some d)
+  | _ => .ok none
+
+/-- first part of the `try:` -/
 def selectDecryptor (P : Params σ) (s : St σ) (p : Pkt) : St σ × Except PyErr (Option Dec) :=
   match p.htype with
   | .short =>
-    let (s, e) := if p.ptype = .rtt1 then checkKeyEpoch P s p.keyPhase p.isServer else (s, none)
-    match e with
-    | some e => (s, .error e)
-    | none =>
-      match s.decApp with
-      | none => (s, .error .key)
-      | some gens =>
-        match gens[if p.isServer then s.epochServer else s.epochClient]? with
-        | none => (s, .error .index)
-        | some d => (s, .ok (some d))
-  | .long =>
-    match p.ptype with
-    | .initial => (s, match s.decInitial with | none => .error .key | some d => .ok (some d))
-    | .handshake => (s, match s.decHandshake with | none => .error .key | some d => .ok (some d))
-    | .rtt0 => (s, match s.decEarly with | none => .error .key | some d => .ok (some d))
-    | _ => (s, .ok none)
+    if p.ptype = .rtt1 then
+      match checkKeyEpoch P s p.keyPhase p.isServer with
+      | (s, some e) => (s, .error e)
+      | (s, none) => (s, appDecryptor s p.isServer)
+    else (s, appDecryptor s p.isServer)
+  | .long => (s, longDecryptor s p.ptype)
 
 /-- does the object have a `packet_num` attribute at all? (`LongQuicPacket.__init__` assigns it for
     INITIAL / HANDSHAKE / RTT_O only; `ShortQuicPacket.__init__` always) -/
@@ -283,24 +306,29 @@ def hasPnAttr (p : Pkt) : Bool :=
   | .long, .initial | .long, .handshake | .long, .rtt0 => true
   | .long, _ => false
 
-/-- `get_full_packet_number`: the bytes handed to `QuicDecryptor.decrypt` -/
+def pnLargest (s : St σ) (srv : Bool) (sp : Space) : Nat := if srv then s.pnServer.get sp else s.pnClient.get sp
+
+def pnStore (s : St σ) (srv : Bool) (sp : Space) (v : Nat) : St σ :=
+  if srv then { s with pnServer := s.pnServer.set sp v } else { s with pnClient := s.pnClient.set sp v }
+
+/-- what `get_full_packet_number` returns: the raw bytes in the first-packet shortcut, else 8 bytes big endian -/
+def pnResult (largest : Nat) (pnb : Bytes) : Except PyErr Bytes :=
+  if Bytes.beNat pnb > largest ∧ largest = 0 then .ok pnb
+  else if PktNum.implDecode (2 ^ (8 * pnb.length)) (2 ^ 62) largest (Bytes.beNat pnb) ≥ u64Bound then .error .overflow
+  else .ok (Bytes.ofNatBE 8 (PktNum.implDecode (2 ^ (8 * pnb.length)) (2 ^ 62) largest (Bytes.beNat pnb)))
+
+/-- `get_full_packet_number`: the table is updated first, then the bytes handed to `QuicDecryptor.decrypt` are built -/
 def getFullPn (s : St σ) (p : Pkt) : St σ × Except PyErr Bytes :=
   match p.ptype.space with
   | none => (s, .error .key)                        -- PACKET_TYPE_MAP[RETRY / VERSION_NEG]
   | some sp =>
-    let largest := if p.isServer then s.pnServer.get sp else s.pnClient.get sp
     if !hasPnAttr p then (s, .error .attr) else
     match p.pn with
     | none => (s, .error .type)                     -- int.from_bytes(None)
     | some pnb =>
-      let trunc := Bytes.beNat pnb
-      let out := PktNum.implDecode (2 ^ (8 * pnb.length)) (2 ^ 62) largest trunc
-      let new := PktNum.implUpdate largest out
-      let s := if p.isServer then { s with pnServer := s.pnServer.set sp new }
-               else { s with pnClient := s.pnClient.set sp new }
-      if trunc > largest ∧ largest = 0 then (s, .ok pnb)
-      else if out ≥ u64Bound then (s, .error .overflow)
-      else (s, .ok (Bytes.ofNatBE 8 out))
+      (pnStore s p.isServer sp (PktNum.implUpdate (pnLargest s p.isServer sp)
+          (PktNum.implDecode (2 ^ (8 * pnb.length)) (2 ^ 62) (pnLargest s p.isServer sp) (Bytes.beNat pnb))),
+       pnResult (pnLargest s p.isServer sp) pnb)
 
 def cat (l : List (Option Bytes)) : Option Bytes :=
   l.foldr (fun x acc => match x, acc with | some a, some b => some (a ++ b) | _, _ => none) (some [])
@@ -339,26 +367,25 @@ def cryptoIn (p : Pkt) (off len : Nat) (data : Bytes) : CryptoIn := ⟨p.isServe
 
 def mkOut (p : Pkt) (f : Frame.Parsed) : Out := ⟨.parsed f, p.ts, p.isServer, p.ptype⟩
 
+/-- the `if self.tls_session.new_data:` block of `handle_crypto_frame` -/
+def afterTls (P : Params σ) (s : St σ) : St σ × Option PyErr :=
+  if P.tlsNewData s.tls then
+    match P.tlsClientRandom s.tls, P.tlsCiphersuite s.tls with
+    | some cr, some cs =>
+      match setTlsDecryptors P s cr cs with
+      | (s, some e) => (s, some e)
+      | (s, none) => ({ s with tls := P.tlsClearNewData s.tls }, none)
+    | _, _ => ({ s with tls := P.tlsClearNewData s.tls }, none)
+  else (s, none)
+
 /-- `handle_crypto_frame` -/
 def handleCrypto (P : Params σ) (s : St σ) (p : Pkt) (f : Frame.Parsed) (c : CryptoIn) : St σ × Option PyErr :=
-  let (t, e) := P.tlsUpdate s.tls c
-  let s := { s with tls := t }
-  match e with
-  | some e => (s, some e)
-  | none =>
-    let (s, e) :=
-      if P.tlsNewData s.tls then
-        let (s, e) :=
-          match P.tlsClientRandom s.tls, P.tlsCiphersuite s.tls with
-          | some cr, some cs => setTlsDecryptors P s cr cs
-          | _, _ => (s, none)
-        match e with
-        | some e => (s, some e)
-        | none => ({ s with tls := P.tlsClearNewData s.tls }, none)
-      else (s, none)
-    match e with
-    | some e => (s, some e)
-    | none => ({ s with out := s.out ++ [mkOut p f] }, none)
+  match P.tlsUpdate s.tls c with
+  | (t, some e) => ({ s with tls := t }, some e)
+  | (t, none) =>
+    match afterTls P { s with tls := t } with
+    | (s, some e) => (s, some e)
+    | (s, none) => ({ s with out := s.out ++ [mkOut p f] }, none)
 
 /-- `handle_frame` for a frame returned by `parse_frames` -/
 def handleFrame (P : Params σ) (s : St σ) (p : Pkt) (f : Frame.Parsed) : St σ × Option PyErr :=
@@ -423,10 +450,8 @@ def learnCids (s : St σ) (p : Pkt) : St σ :=
   if p.isServer then { s with serverCids := optAdd s.serverCids p.scid, clientCids := setAdd s.clientCids p.dcid }
   else { s with clientCids := optAdd s.clientCids p.scid, serverCids := setAdd s.serverCids p.dcid }
 
-/-- one iteration of the loop of `handle_quic_packet` -/
-def stepPkt (P : Params σ) (s : St σ) (p : Pkt) : StepRes σ :=
-  let (s, caught) :=
-    if p.ptype ≠ .retry ∧ p.ptype ≠ .versionNeg then decryptPacket P s p else (s, none)
+/-- the three `if quic_packet.packet_type == …` statements after the decryption attempt -/
+def afterDecrypt (P : Params σ) (s : St σ) (caught : Option PyErr) (p : Pkt) : StepRes σ :=
   if p.ptype = .versionNeg then
     if p.htype = .short then { st := s, caught := caught, escaped := some .attr }   -- no `supported_version`
     else { st := { s with out := s.out ++ [⟨.versionNeg, p.ts, p.isServer, p.ptype⟩] }, caught := caught }
@@ -435,6 +460,12 @@ def stepPkt (P : Params σ) (s : St σ) (p : Pkt) : StepRes σ :=
     if p.htype = .short then { st := s, caught := caught, escaped := some .attr }   -- no `scid`
     else { st := learnCids s p, caught := caught }
   else { st := s, caught := caught }
+
+/-- one iteration of the loop of `handle_quic_packet` -/
+def stepPkt (P : Params σ) (s : St σ) (p : Pkt) : StepRes σ :=
+  if p.ptype ≠ .retry ∧ p.ptype ≠ .versionNeg then
+    afterDecrypt P (decryptPacket P s p).1 (decryptPacket P s p).2 p
+  else afterDecrypt P s none p
 
 /-- the loop of `handle_quic_packet`; stops at an escaping exception. Returns the swallowed exceptions in order. -/
 def handleQuicPackets (P : Params σ) (s : St σ) : List Pkt → St σ × List (Option PyErr) × Option PyErr
@@ -446,6 +477,22 @@ def handleQuicPackets (P : Params σ) (s : St σ) : List Pkt → St σ × List (
     | none =>
       let (s', cs, esc) := handleQuicPackets P r.st ps
       (s', r.caught :: cs, esc)
+
+/-- the state component of `handleQuicPackets` (same recursion, without the bookkeeping) -/
+def runPkts (P : Params σ) (s : St σ) : List Pkt → St σ
+  | [] => s
+  | p :: ps =>
+    match (stepPkt P s p).escaped with
+    | some _ => (stepPkt P s p).st
+    | none => runPkts P (stepPkt P s p).st ps
+
+/-- the escaping exception of `handleQuicPackets`, if any -/
+def escapes (P : Params σ) (s : St σ) : List Pkt → Option PyErr
+  | [] => none
+  | p :: ps =>
+    match (stepPkt P s p).escaped with
+    | some e => some e
+    | none => escapes P (stepPkt P s p).st ps
 
 /-- `packet_isserver(packet, dcid)`; `fromClientAddr` = `packet.ip_src == self.client_ip and packet.sport == self.client_port` -/
 def packetIsServer (s : St σ) (fromClientAddr : Bool) (dcid : Bytes) : Bool :=
@@ -463,15 +510,16 @@ structure Dgram where
   pkts : List Pkt
 
 /-- the part of `handle_packet` before the loop -/
+def latchVersion (s : St σ) (v : Version) : St σ := if s.version = .unknown then { s with version := v } else s
+
 def handlePacketPre (P : Params σ) (s : St σ) (dcid : Bytes) (v : Version) : St σ :=
-  let s := if s.version = .unknown then { s with version := v } else s
-  if s.decInitial.isNone then setInitialDecryptor P s dcid else s
+  if (latchVersion s v).decInitial.isNone then setInitialDecryptor P (latchVersion s v) dcid else latchVersion s v
 
 /-- `handle_packet` -/
 def handlePacket (P : Params σ) (s : St σ) (d : Dgram) : St σ × List (Option PyErr) × Option PyErr :=
-  let s := handlePacketPre P s d.dcid d.version
-  let srv := packetIsServer s d.fromClientAddr d.dcid
-  handleQuicPackets P s (d.pkts.map fun p => { p with isServer := srv })
+  handleQuicPackets P (handlePacketPre P s d.dcid d.version)
+    (d.pkts.map fun p =>
+      { p with isServer := packetIsServer (handlePacketPre P s d.dcid d.version) d.fromClientAddr d.dcid })
 
 /-- a whole capture of one flow -/
 def run (P : Params σ) (s : St σ) : List Dgram → St σ × Option PyErr
